@@ -65,6 +65,7 @@ package tars
 //@   modifies s.ndisp, s.dispErr
 //@   allocates
 //@   site Dispatch#0 assert [C10] reqPackage.SFuncName != "tars_ping"
+//@   site Dispatch#0 assert [C10] reqPackage.ITimeout > 0 ==> now - recvPkgTs < reqPackage.ITimeout
 //@   site Dispatch#0 ghost s.ndisp = s.ndisp + 1
 //@   site Dispatch#0 ghostafter s.dispErr = $ret
 //@   site rsp2Byte#0 assert [C10] rspPackage.IVersion == reqPackage.IVersion && rspPackage.IRequestId == reqPackage.IRequestId && rspPackage.CPacketType == reqPackage.CPacketType
